@@ -52,7 +52,14 @@ def classify_tags(r, lines):
             counted = section in ("ensures", "invariant", "decreases", "assert", "proof", None)
         else:
             counted = section == "requires"
-            if counted:
+            if mode == "template" and section == "ensures":
+                # a hand-written lemma (proof fn with a body) is verified by Verus: its ensures is an obligation
+                for k in range(ln, max(0, ln - 15), -1):
+                    if re.search(r"\bfn\s+\w+", lines[k - 1]):
+                        hdr = " ".join(lines[max(0, k - 3):k])
+                        counted = ("proof fn" in hdr) and ("external_body" not in hdr) and ("axiom" not in hdr)
+                        break
+            elif counted:
                 # a precondition tag is an obligation here only if some verified body calls the function
                 fname = None
                 for k in range(ln, max(0, ln - 15), -1):
